@@ -199,17 +199,41 @@ Definition header_key (bcs : list (N * str)) (s : str) : option N :=
     | None => None
     end
   else None.
+(* re.sub(.., count=1): the first occurrence only *)
+Fixpoint sub_ph_pair_once (fuel : nat) (ph repl : str) (s : str) : str * bool :=
+  match fuel with
+  | O => (s, false)
+  | S f =>
+      match s with
+      | [] => ([], false)
+      | c :: s' =>
+          match match_ph_pair ph s with
+          | Some rest => (repl ++ rest, true)
+          | None => let (r, b) := sub_ph_pair_once f ph repl s' in (c :: r, b)
+          end
+      end
+  end.
+(* repaired: only the occurrence the text begins with is the header; an identical block comment further down carries
+   the same placeholder and is written as it is *)
 Fixpoint insert_blocks (mk_default : str -> str) (hk : option N) (bcs : list (N * str)) (inserted : str) (s : str)
   : str :=
   match bcs with
   | [] => s
   | (i, bc) :: bcs' =>
-      let bc1 := match hk with Some h => if N.eqb h i then mk_default bc else bc | None => bc end in
+      let is_header := match hk with Some h => N.eqb h i | None => false end in
+      let bc1 := if is_header then mk_default bc else bc in
       let bc2 := if contains bc1 inserted then [] else bc1 in
       let ph := placeholder w_BLOCKCOMMENT i in
-      let (s', found) := sub_ph_pair (S (length s)) ph bc2 s in
-      if found then insert_blocks mk_default hk bcs' (inserted ++ bc2) s'
-      else insert_blocks mk_default hk bcs' inserted s
+      if is_header then
+        let (s1, found) := sub_ph_pair_once (S (length s)) ph bc2 s in
+        if found then
+          let (s2, _) := sub_ph_pair (S (length s1)) ph bc s1 in
+          insert_blocks mk_default hk bcs' (inserted ++ bc2 ++ bc) s2
+        else insert_blocks mk_default hk bcs' inserted s
+      else
+        let (s', found) := sub_ph_pair (S (length s)) ph bc2 s in
+        if found then insert_blocks mk_default hk bcs' (inserted ++ bc2) s'
+        else insert_blocks mk_default hk bcs' inserted s
   end.
 Definition insert_block_comments (mk_default : str -> str) (bcs : list (N * str)) (s : str) : str :=
   let hk := header_key bcs s in
